@@ -38,6 +38,7 @@ def to_chain_structure(qc, setup="linear"):
         "SQRTSWAP",
         "BERKELEY",
         "SWAPalpha",
+        "SWAPALPHA",
     ]
     # Two-target gates that distinguish their targets: they are routed like
     # the exchange-type gates, but the two targets keep their order.
